@@ -25,7 +25,8 @@ RULE = ("single: (wire match, frame, in_port) where the match is derived "
         "frames; non-trivial = reference says 'match' for at least one entry "
         "with at least one non-wildcarded field; distinct = distinct case")
 ASSUMPTIONS = ["pvm/ref/ofmatch.py states OpenFlow 1.0 matching correctly",
-               "nw_tos compared on the DSCP bits only; frames use ECN 0",
+               "nw_tos compared on the DSCP bits only (frames carry ECN marks; "
+               "matches do not)",
                "which of several equal-priority matching entries wins is "
                "not demanded; ARP opcodes > 255 not generated"]
 REQUIRED = ["single_cases", "single_match", "single_nomatch", "tables",
